@@ -3,6 +3,7 @@
 package c05
 
 import (
+	"strings"
 	"os"
 	"bytes"
 	"context"
@@ -74,6 +75,7 @@ type world struct {
 	connSeq    int
 	curConn    int
 	// registration table as the last Handle/HandleRaw call per command left it
+	mapOn bool
 	raw   map[int]bool
 	perms map[int][]string
 	h     server.HandlerFunc
@@ -88,7 +90,10 @@ var osUser = func() string {
 	return u.Username
 }()
 
-func newWorld(own bool) *world {
+// mapped is the identity the server's FQUMapper turns u into when the case maps identities
+func mapped(u string) string { return "mapped-" + u }
+
+func newWorld(own, mapOn bool) *world {
 	w := &world{policy: map[int]pol{}, authz: map[string]bool{}, inherit: map[int]bool{}, defPol: pol{Auth: 2, Enc: 2}}
 	for _, c := range authCmds {
 		w.policy[c] = pol{Auth: 2, Enc: 2}
@@ -104,6 +109,12 @@ func newWorld(own bool) *world {
 	}
 	tokenEnv.Apply(nil, base)
 	w.srv = server.New(base)
+	w.mapOn = mapOn
+	if mapOn {
+		// every authenticated identity is mapped (as a map file would); the mapped name is the session's identity:
+		// what the authorizer is asked about, on the first connection, on follow-on commands and after a resumption
+		w.srv.FQUMapper = func(authUser, peerAddr string) string { return mapped(authUser) }
+	}
 	w.srv.SecurityConfigForCommand = func(cmd int) *security.SecurityConfig {
 		w.mu.Lock()
 		p, ok := w.policy[cmd]
@@ -204,6 +215,9 @@ type Case struct {
 	Ops []Op `json:"ops"`
 	// Own: the server's configurations carry a SessionCache of their own
 	Own bool `json:"own,omitempty"`
+	// Map: the server maps every authenticated identity to another name (FQUMapper); the authorizer's table may
+	// hold entries under mapped and under raw names
+	Map bool `json:"map,omitempty"`
 }
 
 var permNames = []string{"READ", "WRITE", "DAEMON"}
@@ -277,6 +291,9 @@ func (w *world) allowed(cmd int, viaHandshake bool, authed, encrypted bool, user
 	}
 	if w.authzOn {
 		okp := false
+		if w.mapOn {
+			user = mapped(user)
+		}
 		for _, pm := range w.perms[cmd] {
 			if w.authz[pm+"|"+user] {
 				okp = true
@@ -312,7 +329,7 @@ func readReply(c *conn, cmd int) (got bool, closed bool) {
 func runCase(cs Case) (string, stats) {
 	var st stats
 	security.ClearSessionCache()
-	w := newWorld(cs.Own)
+	w := newWorld(cs.Own, cs.Map)
 	var kept *conn
 	var lastSess [4]*conn // last established session per client kind
 	clientCaches := [4]*security.SessionCache{security.NewSessionCache(), security.NewSessionCache(), security.NewSessionCache(), security.NewSessionCache()}
@@ -395,10 +412,18 @@ func runCase(cs Case) (string, stats) {
 			policyChanged = true
 		case "authz":
 			w.mu.Lock()
-			w.authz[permNames[op.Perm%3]+"|"+identities[op.User%3]] = op.On
+			// (with identity mapping the entry is filed under the mapped name or - Say odd - under the RAW name, which
+			// then authorises nobody: no session's identity is a raw name)
+			nm := func(u string) string {
+				if w.mapOn && op.Say%2 == 0 {
+					return mapped(u)
+				}
+				return u
+			}
+			w.authz[permNames[op.Perm%3]+"|"+nm(identities[op.User%3])] = op.On
 			if op.User%3 >= 1 { // both spellings of the token identity are one principal
-				w.authz[permNames[op.Perm%3]+"|alice@verif.test"] = op.On
-				w.authz[permNames[op.Perm%3]+"|alice"] = op.On
+				w.authz[permNames[op.Perm%3]+"|"+nm("alice@verif.test")] = op.On
+				w.authz[permNames[op.Perm%3]+"|"+nm("alice")] = op.On
 			}
 			w.mu.Unlock()
 			policyChanged = true
@@ -488,7 +513,7 @@ func runCase(cs Case) (string, stats) {
 						if c.authed {
 							c.user = identities[kind]
 							if kind == 1 {
-								c.user = neg.User // resolved below against the two accepted spellings
+								c.user = strings.TrimPrefix(neg.User, "mapped-") // resolved below against the two accepted spellings
 							}
 						}
 					}
@@ -633,6 +658,7 @@ func runCase(cs Case) (string, stats) {
 func genCase(t *rapid.T) Case {
 	var c Case
 	c.Own = rapid.IntRange(0, 2).Draw(t, "own") == 0
+	c.Map = rapid.IntRange(0, 2).Draw(t, "map") == 0
 	n := rapid.IntRange(3, 10).Draw(t, "nops")
 	for i := 0; i < n; i++ {
 		k := rapid.SampledFrom([]string{"run", "run", "run", "follow", "follow", "resume", "resume", "raw", "policy", "policy", "authz", "authz", "authorizer", "restart", "sidonly", "inherit", "defpolicy", "register"}).Draw(t, "op")
@@ -715,6 +741,14 @@ func TestC05Directed(t *testing.T) {
 		}
 		cases = append(cases, Case{Ops: []Op{{K: "run", Cmd: 4, Kind: kind}, {K: "run", Cmd: 6, Kind: kind}, {K: "raw", Cmd: 0}, {K: "raw", Cmd: 4}, {K: "raw", Cmd: 5}, {K: "raw", Cmd: 6},
 			{K: "run", Cmd: 0, Kind: kind, Keep: true}, {K: "follow", Cmd: 4}, {K: "run", Cmd: 0, Kind: kind, Keep: true}, {K: "follow", Cmd: 6}}})
+	}
+	// identity mapping: the table authorises the RAW name only (nobody, then) or the mapped name; first connection,
+	// follow-on, resumption with another command
+	for kind := 0; kind < 2; kind++ {
+		for _, say := range []int{0, 1} {
+			cases = append(cases, Case{Map: true, Ops: []Op{{K: "authorizer", On: true}, {K: "authz", Perm: 0, User: kind, On: true, Say: say}, {K: "authz", Perm: 1, User: kind, On: true, Say: say},
+				{K: "run", Cmd: 0, Kind: kind, Keep: true}, {K: "follow", Cmd: 1}, {K: "resume", Cmd: 1, Kind: kind, Keep: true}, {K: "follow", Cmd: 0}, {K: "resume", Cmd: 0, Kind: kind}}})
+		}
 	}
 	// every third scenario again on a server that has a session cache of its own
 	for i, c := range append([]Case(nil), cases...) {
